@@ -20,6 +20,11 @@ pub(crate) struct Index<K> {
     pub state: Arc<RwLock<IndexState<K>>>,
     pub wal: Mutex<WalManager>,
     pub pending_intents: Mutex<HashMap<K, BlobHash>>,
+    /// Number of commits in flight per blob hash. `pending_intents` is keyed by key, so a second
+    /// writer on the same key replaces the first writer's entry and whoever commits first removes
+    /// it; this count is what keeps a blob from being deleted while any commit of it is still
+    /// between `commit_blob` and its index update. Only touched while `pending_intents` is locked.
+    pub inflight_blobs: Mutex<HashMap<BlobHash, usize>>,
 }
 
 /// A read-only view of the index state.
@@ -179,6 +184,8 @@ where
     size: u64,
     replaced_hash: Option<BlobHash>,
     committed: bool,
+    /// whether this guard's entry in `inflight_blobs` has been given back
+    released: bool,
 }
 
 #[derive(Debug, Clone, Copy)]
@@ -196,7 +203,8 @@ where
         mut self,
         delete_fn: &crate::types::DeleteBlobCallFn,
     ) -> Result<(), IndexError> {
-        self.index.apply_put_op(self.key.clone(), self.hash, self.size, delete_fn)?;
+        let (key, hash, size) = (self.key.clone(), self.hash, self.size);
+        self.index.apply_put_op(key, hash, size, delete_fn, &mut self.released)?;
         self.committed = true;
         Ok(())
     }
@@ -207,6 +215,12 @@ where
     K: Clone + Eq + Ord + std::hash::Hash,
 {
     fn drop(&mut self) {
+        if !self.released {
+            let _intents = self.index.pending_intents.lock();
+            self.index.release_inflight(&self.hash);
+            self.released = true;
+        }
+
         if !self.committed {
             // Revert: Remove our intent from pending_intents
             let mut intents = self.index.pending_intents.lock();
@@ -256,6 +270,7 @@ where
             state,
             wal: Mutex::new(wal_manager),
             pending_intents: Mutex::new(HashMap::default()),
+            inflight_blobs: Mutex::new(HashMap::default()),
         };
 
         // Only checkpoint after replay if we actually replayed something
@@ -287,6 +302,7 @@ where
 
         // Insert the new intent
         intents.insert(key.clone(), meta.blob_hash);
+        *self.inflight_blobs.lock().entry(meta.blob_hash).or_default() += 1;
 
         Ok(IntentGuard {
             index: self,
@@ -295,6 +311,7 @@ where
             size: meta.blob_size,
             replaced_hash,
             committed: false,
+            released: false,
         })
     }
 
@@ -304,6 +321,7 @@ where
         hash: BlobHash,
         size: u64,
         delete_fn: &crate::types::DeleteBlobCallFn,
+        inflight_released: &mut bool,
     ) -> Result<(), IndexError> {
         let logical_op = WalOp::Put { key: key.clone(), hash, size };
         let mut intents = self.pending_intents.lock();
@@ -318,9 +336,15 @@ where
 
         intents.remove(&key);
 
-        // Filter out any unreferenced hashes that are still referenced by other intents
-        unreferenced_from_op
-            .retain(|hash| !intents.values().any(|intent_hash| intent_hash == hash));
+        // The index references the blob now; give back this commit's in-flight mark while the
+        // intents lock is still held, so nobody ever observes a stale one.
+        if !*inflight_released {
+            self.release_inflight(&hash);
+            *inflight_released = true;
+        }
+
+        // Filter out any unreferenced hashes that another in-flight commit is about to reference
+        unreferenced_from_op.retain(|hash| !self.blob_in_flight(hash));
 
         // Delete blobs BEFORE any checkpoint
         if !unreferenced_from_op.is_empty() {
@@ -354,9 +378,8 @@ where
             (hashes, rolled)
         };
 
-        // Remove any unreferenced hashes that are still referenced by intents
-        unreferenced_from_op
-            .retain(|hash| !intents.values().any(|intent_hash| intent_hash == hash));
+        // Remove any unreferenced hashes that an in-flight commit is about to reference
+        unreferenced_from_op.retain(|hash| !self.blob_in_flight(hash));
 
         // Delete blobs BEFORE any checkpoint
         if !unreferenced_from_op.is_empty() {
@@ -441,6 +464,22 @@ where
 impl<K> Index<K> {
     pub fn read_state(&self) -> IndexReadGuard<'_, K> {
         IndexReadGuard { inner: self.state.read() }
+    }
+
+    /// Whether some commit of `hash` is in flight. Call with `pending_intents` locked.
+    pub(crate) fn blob_in_flight(&self, hash: &BlobHash) -> bool {
+        self.inflight_blobs.lock().contains_key(hash)
+    }
+
+    /// Give back one in-flight mark of `hash`. Call with `pending_intents` locked.
+    fn release_inflight(&self, hash: &BlobHash) {
+        let mut inflight = self.inflight_blobs.lock();
+        if let Some(count) = inflight.get_mut(hash) {
+            *count -= 1;
+            if *count == 0 {
+                inflight.remove(hash);
+            }
+        }
     }
 }
 
